@@ -55,6 +55,21 @@ def setSize (cap newSize : Nat) : Except Err Unit :=
   else if wrap cap newSize ≠ newSize then .error (.pre "size_type truncates the size")
   else .ok ()
 
+/-- how an object comes into existence: `T v{}` / `T()` (value-initialisation) or `T v;`
+    (default-initialisation; `garbage` = the bytes that happen to be in the storage) -/
+inductive Init where
+  | value
+  | dflt (garbage : Nat)
+  deriving DecidableEq, Repr, Inhabited
+
+/-- `size()` of a freshly created object.  The storages of static_vector (hence stack) give `_size`
+    the initializer `= 0`, and `inplace_vector<T, 0>` has no size member.  `inplace_vector<T, N>`
+    has a defaulted default constructor and *no* initializer for `_size`: default-initialisation leaves
+    the narrow size field indeterminate (known finding F-C01-inplace-vector-default-init). -/
+def initSize (ty : Ty) (cap : Nat) : Init → Nat
+  | .value => 0
+  | .dflt g => if ty = .ipv ∧ cap ≠ 0 then wrap cap g else 0
+
 /-- checked element assignment `p[i] = x` for a live element -/
 def wr {α : Type} (l : List α) (i : Nat) (x : α) : Except Err (List α) :=
   if i < l.length then .ok (l.set i x) else .error .oob
